@@ -13,7 +13,10 @@ either a Python `str` (fully known) or a `SymStr`: a sequence of pieces
     ("esc", a, b)      re.escape(X[a : L-b])
     ("head",) ("tail",) the first / the last character of X (from `m[:1]`, `m[0]`, `m[-1:]`, `m[-1]`; only comparable with literals)
 
-Integers are Python ints or `SymInt(c, k)` = c + k*L.  Every operation is either computed exactly on this representation or raises
+Repo classes are interpreted as far as a converter needs them: `Cls(...)` builds a `Record` (NamedTuple / dataclass fields in
+declaration order with defaults, or whatever a plain `__init__` assigns to self), `obj.field`, properties, bound / class / static methods,
+class constants, tuple unpacking and indexing of NamedTuples; bools are ints wherever Python takes them as ints (slice bounds, indices,
+arithmetic).  Integers are Python ints or `SymInt(c, k)` = c + k*L.  Every operation is either computed exactly on this representation or raises
 `Unknown` (the domain cannot express the result - e.g. `m.strip('*')` when it is not known whether X starts with '*').  With X
 instantiated by a concrete text the same evaluator degenerates to constant folding, which is how counterexamples are produced.
 """
